@@ -197,10 +197,18 @@ var Decorations = []string{
 	"// \"q' \n",
 	"/* \" ' // */",
 	"/**/",
+	// extended: slash right after the opener, a newline inside, two stars before the closer
+	"/*/\n**/",
+	// extended: a line comment that contains a block opener
+	"// /*\n",
 }
 
+// BaseDecorations is the number of leading elements of Decorations that form
+// the base alphabet; the rest are the extended elements.
+const BaseDecorations = 7
+
 // DecorationNames are used in violation keys.
-var DecorationNames = []string{"none", "space", "line", "block", "line-quotes", "block-quotes-slashes", "block-empty"}
+var DecorationNames = []string{"none", "space", "line", "block", "line-quotes", "block-quotes-slashes", "block-empty", "block-slash-newline-stars", "line-with-block-opener"}
 
 // IsComment reports whether decoration d contains a comment.
 func IsComment(d int) bool { return d >= 2 }
